@@ -115,4 +115,9 @@ theorem dropLastN_append' (p s : Bytes) (n : Nat) (h : s.length = n) : dropLastN
 theorem dropLastN_lastN (n : Nat) (b : Bytes) : dropLastN n b ++ lastN n b = b := by
   simp [dropLastN, lastN]
 
+theorem mid_slice (p v r : Bytes) (a b : Nat) (ha : a = p.length) (hb : b = p.length + v.length) :
+    ((p ++ v ++ r).take b).drop a = v := by
+  subst ha hb
+  rw [List.take_left' (by simp), List.drop_left' rfl]
+
 end SpecVerif
